@@ -293,28 +293,33 @@ class PFITSReader(Filterbank):
     ) -> FilterbankBlock:
         fch1 = fch1 if fch1 is not None else self.header.fch1
         nchans = nchans if nchans is not None else self.header.nchans
-        if fch1 > self.header.fch1 or nchans > self.header.nchans:
+        chan_start = round((fch1 - self.header.fch1) / self.header.foff)
+        if chan_start < 0 or nchans < 0 or chan_start + nchans > self.header.nchans:
             msg = f"requested block is out of range: fch1={fch1}, nchans={nchans}"
             raise ValueError(msg)
         if start < 0 or start + nsamps > self.header.nsamples:
             msg = f"requested block is out of range: start={start}, nsamps={nsamps}"
             raise ValueError(msg)
 
-        startsub, startsamp = divmod(start, self.sub_hdr.subint_samples)
-        nsubs = (
-            nsamps + self.sub_hdr.subint_samples - 1
-        ) // self.sub_hdr.subint_samples
-        data = self._fitsfile.read_subints(startsub, nsubs)
-        data = data[startsamp : startsamp + nsamps]
+        data = self._read_samples(start, nsamps)
         data = data.reshape(nsamps, self.header.nchans).transpose()
 
-        chan_start = int((fch1 - self.header.fch1) / self.header.foff)
         data_block = data[chan_start : chan_start + nchans]
         start_mjd = self.header.mjd_after_nsamps(start)
         new_header = self.header.new_header(
             {"tstart": start_mjd, "nsamples": nsamps, "fch1": fch1, "nchans": nchans},
         )
         return FilterbankBlock(data_block, new_header)
+
+    def _read_samples(self, start: int, nsamps: int) -> np.ndarray:
+        """Read samples [start, start + nsamps) as a (nsamps, nchans) array."""
+        startsub, startsamp = divmod(start, self.sub_hdr.subint_samples)
+        # rows needed to cover the request, which need not start on a row boundary
+        nsubs = (
+            startsamp + nsamps + self.sub_hdr.subint_samples - 1
+        ) // self.sub_hdr.subint_samples
+        data = self._fitsfile.read_subints(startsub, nsubs)
+        return data[startsamp : startsamp + nsamps]
 
     def read_dedisp_block(self, start: int, nsamps: int, dm: float) -> FilterbankBlock:
         msg = "Not implemented for PFITSReader"
@@ -341,24 +346,15 @@ class PFITSReader(Filterbank):
         if skipback >= gulp:
             msg = f"readsamps ({gulp}) must be > skipback ({skipback})"
             raise ValueError(msg)
-        nreads, lastread = divmod(nsamps, (gulp - skipback))
-        if lastread < skipback:
-            nreads -= 1
-            lastread = nsamps - (nreads * (gulp - skipback))
-        blocks = [(ii, gulp, -skipback) for ii in range(nreads)]
-        if lastread != 0:
-            blocks.append((nreads, lastread, 0))
+        # Same block layout as FilReader.read_plan
+        stride = gulp - skipback
+        nblocks = -(-(nsamps - gulp) // stride) + 1
+        blocks = [(ii, gulp) for ii in range(nblocks - 1)]
+        blocks.append((nblocks - 1, nsamps - (nblocks - 1) * stride))
 
-        for ii, block, skip in track(blocks, description=description, disable=quiet):
-            startsub, startsamp = divmod(start, self.sub_hdr.subint_samples)
-            nsubs = (
-                nsamps + self.sub_hdr.subint_samples - 1
-            ) // self.sub_hdr.subint_samples
-
-            data = self._fitsfile.read_subints(startsub, nsubs)
-            data = data[startsamp : startsamp + nsamps]
-            start += block + skip
-            yield block, ii, data.ravel()
+        for ii, block in track(blocks, description=description, disable=quiet):
+            data = self._read_samples(start + ii * stride, block)
+            yield block, ii, data.ravel().astype(np.float32, copy=False)
 
 
 @attrs.define(auto_attribs=True, slots=True)
